@@ -94,7 +94,15 @@ def run(ck: Check) -> int:
                 if g[m] != base:
                     diff = set(g[m]) ^ set(base)
                     # D17 through dir_fd: the fake `.`/`..` of a non-directory are not produced
-                    d17 = m == 'dir_fd' and diff and all(not os.path.lexists(os.path.join(t.root, x)) for x in diff)
+                    def _ex(x):
+                        return os.path.lexists(os.path.join(t.root, x))
+                    d17 = m == 'dir_fd' and diff and all(not _ex(x) for x in diff)
+                    if not d17 and m == 'dir_fd' and diff and c.flags & G.IGNORECASE and not c.flags & G.CASE:
+                        # … and under IGNORECASE the fake entry of the non-directory `A` occupies the case-folded seen key (KF-G2), so
+                        # the real `a/.` is missing from the root_dir run and present in the dir_fd run: every existing member of the
+                        # difference has a non-existing case twin in it
+                        d17 = all(any(y != x and y.lower() == x.lower() and not _ex(y) for y in diff) for x in diff if _ex(x)) and \
+                            any(not _ex(x) for x in diff)
                     report(Failing(f'results differ between root_dir=str and {m}', c.to_json(G, t), base[:10], g[m][:10],
                                    'wcmatch/glob.py:624-664'), 'KF-G4' if d17 else None)
         if c.mode != 'root_dir':
